@@ -145,6 +145,13 @@ class FakeOS:
         _fs_yield(self.fs)
         self.fs.dirs.add(p.rstrip('/'))
 
+    def __getattr__(self, name: str) -> Any:
+        # everything that is not the file system (os.environ, os.getpid...)
+        # is the real module; os.environ is itself a per-rank seam
+        import os as real
+
+        return getattr(real, name)
+
 
 def _fs_yield(fs: SimFS) -> None:
     fs.ops += 1
@@ -324,7 +331,12 @@ class NeoxEnv:
         init = {'op': 'init', 'inc': inc, 'coord': (c.pipe, c.data, c.model),
                 'layers': sorted(self.local),
                 'inv': {str(i): self.assignment.inv_worker(str(i), 'A')
-                        for i in self.local}}
+                        for i in self.local},
+                'views': {str(i): {
+                    'fw': self.assignment.factor_worker(str(i), 'A'),
+                    'src': self.assignment.src_grad_worker(str(i)),
+                    'gw': self.assignment.is_grad_worker(str(i))}
+                    for i in self.local}}
         self.records.append(init)
         self.cur_it = 0
         self.has_factors = False
@@ -617,7 +629,8 @@ def execute(plan: dict[str, Any], tapes: Any = None) -> dict[str, Any]:
                 world)
         cfg = core.SimCfg(poison=s.get('poison', False),
                           latency=s.get('latency', 0.0),
-                          fifo=not s.get('unordered', False))
+                          fifo=not s.get('unordered', False),
+                          local_size=s.get('local_size'))
         sim = core.Sim(world, chooser, cfg)
         p2 = dict(plan)
         p2['_restart_op'] = inc['restart_op']
@@ -759,7 +772,9 @@ def gen_neox_plan(rng: random.Random, tier: str, *, restarts: float,
                 'poison': rng.random() < 0.5,
                 'unordered': rng.random() < 0.3,
                 'latency': rng.choice([0.0, 1e-4]),
-                'sched_seed': rng.randrange(1 << 30)},
+                'sched_seed': rng.randrange(1 << 30),
+                # ranks per node of the launcher (None: variables unset)
+                'local_size': rng.choice([None, None, 1, 2, 4])},
     }
     if plan['hidden'] < 2:
         plan['hidden'] = 2 * mp
